@@ -159,6 +159,15 @@ UserAcc(T, d) == IF IsAtom(d) /\ d.a \in CtorAccepts[T.v[1]] THEN {Conv(T.v[1], 
 (* ------------------------------ the loader relation --------------------------------- *)
 RECURSIVE Acc(_, _, _), Undef(_, _, _), Errs(_, _, _), Unexp(_, _, _)
 
+\* a loaded value that can be a member of a set / a key of a dict (Python: hashable); an input whose elements load to
+\* values that can not is not a representation of any set - "every unacceptable input datum ... unhashable values"
+RECURSIVE CanBeMember(_)
+CanBeMember(v) == CASE v.c = "atom" -> Hashable[v.a]
+                    [] v.c = "conv" -> IF v.f = "id" THEN Hashable[v.a] ELSE v.f \notin {"b64ba"}      \* the constructors build hashable values, bytearray apart
+                    [] v.c \in {"tuple", "frozenset"} -> \A i \in 1..Len(v.xs) : CanBeMember(v.xs[i])
+                    [] OTHER -> FALSE
+AllHashable(q) == \A i \in 1..Len(q) : CanBeMember(q[i])
+
 \* the datum reaches user code that raises a non-LoadError: the call fails, in every mode
 Unexp(T, d, s) ==
   CASE T.k = "user" -> UserAcc(T, d) = {}
@@ -179,11 +188,12 @@ Acc(T, d, s) ==
     [] T.k \in IterKinds ->
          IF ~IterOk(d, s) THEN {}
          ELSE LET xs == Items(d) IN
-              {[c |-> IterImpl(T.k), xs |-> r] : r \in SeqProd([i \in 1..Len(xs) |-> Acc(T.a[1], xs[i], s)])}
+              {[c |-> IterImpl(T.k), xs |-> r] :
+                  r \in {q \in SeqProd([i \in 1..Len(xs) |-> Acc(T.a[1], xs[i], s)]) : IterImpl(T.k) \in {"set", "frozenset"} => AllHashable(q)}}
     [] T.k \in DictKinds ->
          IF d.c \notin MapKinds THEN {}
          ELSE {[c |-> DictImpl(T.k), ks |-> rk, vs |-> rv] :
-                 rk \in SeqProd([i \in 1..Len(d.ks) |-> Acc(T.a[1], d.ks[i], s)]),
+                 rk \in {q \in SeqProd([i \in 1..Len(d.ks) |-> Acc(T.a[1], d.ks[i], s)]) : AllHashable(q)},
                  rv \in SeqProd([i \in 1..Len(d.vs) |-> Acc(T.a[2], d.vs[i], s)])}
     [] T.k = "tuple_fix" ->
          IF ~IterOk(d, s) THEN {}
@@ -226,12 +236,14 @@ Here == {<<>>}
 Errs(T, d, s) ==
   IF Acc(T, d, s) # {} \/ Unexp(T, d, s) THEN {}
   ELSE CASE T.k \in IterKinds /\ IterOk(d, s) ->
-              UNION {Rebase([s |-> "idx", i |-> i], Errs(T.a[1], Items(d)[i], s)) : i \in 1..Len(Items(d))}
+              LET sub == UNION {Rebase([s |-> "idx", i |-> i], Errs(T.a[1], Items(d)[i], s)) : i \in 1..Len(Items(d))}
+              IN IF sub = {} THEN Here ELSE sub          \* every element loads, the collection can not hold the results
          [] T.k = "tuple_fix" /\ IterOk(d, s) /\ Len(Items(d)) = Len(T.a) ->
               UNION {Rebase([s |-> "idx", i |-> i], Errs(T.a[i], Items(d)[i], s)) : i \in 1..Len(T.a)}
          [] T.k \in DictKinds /\ d.c \in MapKinds ->
-              UNION {Rebase([s |-> "key", i |-> i], Errs(T.a[1], d.ks[i], s))
-                     \cup Rebase([s |-> "val", i |-> i], Errs(T.a[2], d.vs[i], s)) : i \in 1..Len(d.ks)}
+              LET sub == UNION {Rebase([s |-> "key", i |-> i], Errs(T.a[1], d.ks[i], s))
+                                \cup Rebase([s |-> "val", i |-> i], Errs(T.a[2], d.vs[i], s)) : i \in 1..Len(d.ks)}
+              IN IF sub = {} THEN Here ELSE sub
          [] T.k \in {"newtype", "annotated"} -> Errs(T.a[1], d, s)
          [] OTHER -> Here          \* the node itself is the offending sub-value (wrong kind, bad scalar, no union case, bad length)
 
